@@ -98,6 +98,7 @@ VALUES: dict[str, list[list[str]]] = {
 
 KITCHEN = {
     "main.py": '''import sys
+import pk.mid.leaf
 from typing import Any, Optional, cast, TYPE_CHECKING
 import m
 from m import helper, Reexported
@@ -178,11 +179,15 @@ from n import Reexported
 class Base: pass
 def helper(x: int) -> str:
     return x
+m_bad: int = 'x'
 def untyped_in_m(a):
     return a
 glob_m = {}
 ''',
     "n.py": "class Reexported: pass\n",
+    "pk/__init__.py": "",
+    "pk/mid/__init__.py": "",
+    "pk/mid/leaf.py": "import missing_leaf_dep\nfrom missing_leaf_dep import thing\nleaf_bad: int = 'x'\ndef leaf_untyped(a):\n    return a\n",
     "untyped_lib.pyi": "from typing import Any\nsomething: Any\ndef __getattr__(name: str) -> Any: ...\n",
 }
 
@@ -291,14 +296,32 @@ def build_pairs(tier: str) -> tuple[list[dict[str, Any]], dict[str, str], dict[s
     n_whole = 120 if tier == "quick" else len(cases)
     for c in (cases if len(cases) <= n_whole else rng.sample(cases, n_whole)):
         pairs.append({"prog": c["file"] + "::" + c["name"], "files": c["steps"][0], "argv": corpus.step_argv(c, 0), "A": [], "B": list(c["flags"][0]), "toggle": {"flag": "<flags line>", "dest": "*", "args": list(c["flags"][0])}, "carrier": "cmdline"})
-    # config-file carrier: boolean options through [mypy] and [mypy-m] sections (kitchen sink)
+    # config-file carrier: boolean options through sections of several shapes (kitchen sink), with and without
+    # background flags that stay the same in both runs
+    shapes = ["mypy", "mypy-m", "mypy-pk.*", "mypy-pk.*.leaf", "mypy-*.leaf", "mypy-main"]
+    backgrounds: list[list[str]] = [[], ["--debug-cache"]]
+    j = 0
     for t in toggles:
         if t["bool"] is None or t["dest"].startswith("special-opts"):
             continue
         val = "True" if t["bool"] else "False"
-        for section in ("mypy", "mypy-m"):
-            pairs.append({"prog": "kitchen", "files": kitchen_files(), "argv": ["main.py"], "A": [], "B": [], "toggle": t,
-                          "carrier": "config:" + section, "cfgA": "[mypy]\n", "cfgB": f"[{section}]\n{t['dest']} = {val}\n" if section == "mypy" else f"[mypy]\n[{section}]\n{t['dest']} = {val}\n"})
+        use = shapes if tier == "thorough" else [shapes[0], shapes[1 + j % (len(shapes) - 1)], shapes[1 + (j + 2) % (len(shapes) - 1)]]
+        j += 1
+        for section in use:
+            for bg in backgrounds if (tier == "thorough" or section != "mypy") else [[]]:
+                cfgB = f"[{section}]\n{t['dest']} = {val}\n" if section == "mypy" else f"[mypy]\n[{section}]\n{t['dest']} = {val}\n"
+                pairs.append({"prog": "kitchen", "files": kitchen_files(), "argv": ["main.py"], "A": list(bg), "B": list(bg), "toggle": t,
+                              "carrier": "config:" + section + (":bg" if bg else ""), "cfgA": "[mypy]\n", "cfgB": cfgB})
+    # global error-code toggles while a per-module section carries its own error-code list (both runs)
+    per_module_bg = "[mypy]\n[mypy-m]\ndisable_error_code = return-value\n[mypy-pk.mid.leaf]\nenable_error_code = truthy-bool\n"
+    for flag, dest in (("--disable-error-code", "disable_error_code"), ("--enable-error-code", "enable_error_code")):
+        for code in ("assignment", "import-not-found", "no-untyped-def", "attr-defined", "ignore-without-code", "redundant-expr"):
+            t = {"flag": flag, "dest": dest, "args": [flag, code], "bool": None}
+            for bg in backgrounds:
+                pairs.append({"prog": "kitchen", "files": kitchen_files(), "argv": ["main.py"], "A": list(bg) + ["--disallow-untyped-defs"], "B": list(bg) + ["--disallow-untyped-defs", flag, code],
+                              "toggle": t, "carrier": "cmdline+per-module-bg" + (":bg" if bg else ""), "cfgA": per_module_bg, "cfgB": per_module_bg})
+            pairs.append({"prog": "kitchen", "files": kitchen_files(), "argv": ["main.py"], "A": ["--disallow-untyped-defs"], "B": ["--disallow-untyped-defs"], "toggle": t,
+                          "carrier": "config:mypy+per-module-bg", "cfgA": per_module_bg, "cfgB": per_module_bg.replace("[mypy]\n", f"[mypy]\n{dest} = {code}\n", 1)})
     return pairs, skipped, witnesses
 
 
